@@ -59,13 +59,19 @@ def run(tier, seed, replay=None):
         order = rng.choice([2, 2, 3, 4]) if pd == 2 else rng.choice([2, 2, 3])
         ref = rng.choice([0, 0, 1, 2]) if pd == 2 else rng.choice([0, 0, 1])
         rep_knot = order >= 3 and rng.random() < 0.5
-        cx = X.build(rng, pd, order=order, refine=ref, repeat_knot=rep_knot)
+        ring = rng.random() < 0.3
+        if ring:
+            # complexes closing around an axis: a patch adjacent to itself (one interface between its two ends), two
+            # patches meeting along two interfaces, closed chains
+            cx = X.build_ring(rng, pd, order=order, refine=ref, repeat_knot=rep_knot)
+        else:
+            cx = X.build(rng, pd, order=order, refine=ref, repeat_knot=rep_knot)
         args = describe(cx, order=order, refine=ref)
         args['repeated_knot'] = rep_knot
         nontriv.add(C.case_hash(args))
         try:
             model = SplineModel(pd, cx['dim'])
-            model.add(cx['patches'])
+            model.add(cx['patches'], **(dict(raise_on_twins=False) if ring else {}))
             model.generate_cp_numbers()
             model.generate_cell_numbers()
         except Exception as e:  # noqa
@@ -126,7 +132,7 @@ def run(tier, seed, replay=None):
             w = IFEMWriter(model)
             conns = list(w.connections())
             count('ifem connections')
-            shared, bnd = X.interior_faces(cx['cells'], pd)
+            shared, bnd = X.interior_faces(cx['cells'], pd, cx.get('period'))
             if len(conns) != len(shared):
                 fail('ifem connections', args, '%d connections listed, the complex has %d interfaces' % (len(conns), len(shared)))
             seenc = set()
@@ -135,7 +141,7 @@ def run(tier, seed, replay=None):
                 fm = m.obj.section(*section_from_index(pd, pd - 1, cn_.midx - 1), unwrap_points=False)
                 fs = s_.obj.section(*section_from_index(pd, pd - 1, cn_.sidx - 1), unwrap_points=False)
                 kk = (cn_.master, cn_.slave, cn_.midx, cn_.sidx)
-                if kk in seenc or cn_.master > cn_.slave:
+                if kk in seenc or cn_.master > cn_.slave or (cn_.master == cn_.slave and cn_.midx >= cn_.sidx):
                     fail('ifem connections', args, 'an interface is named twice or with master > slave: %s' % (cn_,))
                     break
                 seenc.add(kk)
@@ -285,7 +291,7 @@ def run(tier, seed, replay=None):
             shutil.rmtree(tmp, ignore_errors=True)
 
     # ---------------------------------------------------------------- L1: numbering vs the extracted abstract model
-    corr_bad = None
+    corr_bad = C.Corr()
     lines = ['number_model %d %s' % (len(pl), ' '.join('%d %s' % (len(k), ' '.join(map(str, k))) for k, _ in pl)) for _, pl, _ in l1]
     outs = C.run_model(lines) if lines else []
     nl1 = 0
@@ -293,10 +299,10 @@ def run(tier, seed, replay=None):
         nl1 += 1
         n = tk.int()
         got = tk.list(lambda: tk.list(tk.int))
-        if (n != ncps or got != [nums for _, nums in pl]) and corr_bad is None:
-            corr_bad = {'what': 'L1: global numbers differ from the first-come numbering of the model (ncps %d vs %d)' % (ncps, n), 'op': 'numbering', 'args': a_}
+        if (n != ncps or got != [nums for _, nums in pl]) and corr_bad.open():
+            corr_bad += {'what': 'L1: global numbers differ from the first-come numbering of the model (ncps %d vs %d)' % (ncps, n), 'op': 'numbering', 'args': a_}
     dist['op']['L1 comparisons'] = nl1
-    rc = V.finish(l0, corr_bad if not V.fail else None)
+    rc = V.finish(l0, corr_bad)
     C.write_evidence(PID, tier, seed, l0, {
         'evaluations': evals, 'distinct_nontrivial': len(nontriv),
         'rule': 'random conforming complexes (blocks, L/T/O shapes; surfaces of order 2-4 and volumes of order 2-3, refined 0-2 times; random orientation per patch, random insertion order): '
